@@ -491,7 +491,7 @@ class Executor:
         self.path.oblige(f'{q}/safety/result_not_none', z3.Not(res.is_none))
         self.path.assume(z3.Not(res.is_none))
         res = res.inner
-      if c.result is not None and not isinstance(res, VNone):
+      if c.result is not None and (not isinstance(res, VNone) or isinstance(c.result, KOpt)):
         res = coerce(self.world.materialize(self, res, c.result), c.result)
       ctx = self.ctx(result=res, mid=getattr(self, 'cm_mid', None))
       clauses = c.cm_exit if c.is_cm else c.ensures
@@ -1205,12 +1205,17 @@ class Executor:
     if any(isinstance(i, VPy) and i.what in ('emptylist', 'emptydict', 'listlit')
            for i in items):
       return VPy('listlit', items)
+    if all(isinstance(i, VPy) for i in items):
+      return VTuple(items)          # a literal list of functions / methods: concrete
     k = KList(kind_of(items[0]))
     return k.from_items(items)
 
   def ex_Dict(self, node):
     if not node.keys:
       return VPy('emptydict')
+    if all(isinstance(k, ast.Constant) and isinstance(k.value, str) for k in node.keys):
+      # a literal dispatch table: concrete keys, arbitrary values
+      return VPy('dictlit', {k.value: self.ev(v) for k, v in zip(node.keys, node.values)})
     self.oos('non-empty dict display', node)
 
   def ex_JoinedStr(self, node):
@@ -1440,6 +1445,8 @@ class Executor:
       return self.contains(coll.inner, x, node)
     if isinstance(coll, VStr) and isinstance(x, VStr):
       return sym.ufun('str_contains', sym.Str, sym.Str, sym.BoolS)(coll.e, x.e)
+    if isinstance(coll, VPy) and coll.what == 'dictlit' and isinstance(x, VStr):
+      return z3.Or(*[x.e == sym.str_lit(k) for k in coll.payload])
     r = self.world.contains(self, coll, x, node)
     if r is not None:
       return r
@@ -1591,6 +1598,11 @@ class Executor:
       if not self.path.decide(obj.has(idx)):
         self.py_raise('KeyError', node)
       return self.dict_read(obj, idx)
+    if isinstance(obj, VPy) and obj.what == 'dictlit' and isinstance(idx, VStr):
+      for k, v in obj.payload.items():
+        if self.path.decide(idx.e == sym.str_lit(k)):
+          return v
+      self.py_raise('KeyError', node)
     r = self.world.get_item(self, obj, idx, node)
     if r is not None:
       return r
